@@ -37,8 +37,11 @@ def collections():
 
 
 def args():
+    # the last four are themselves calls: one with a value, one without, one safe call taking its fallback, one failing for another reason
     return [N(0), N(1), N(2), N(3), N(5), N(-1), N(-2), N(0.5), N(1.5), N(11), X.string("a"), X.string("b"), X.string("k"),
-            X.tup([("a", N(1))]), X.arr([N(1)]), X.set_([]), X.true_(), X.tup([])]
+            X.tup([("a", N(1))]), X.arr([N(1)]), X.set_([]), X.true_(), X.tup([]),
+            X.call(X.dict_([(X.string("a"), N(0))]), X.string("a")), X.call(X.dict_([(X.string("a"), N(0))]), X.string("b")),
+            X.safecall(X.arr([N(5)]), N(3), N(1)), X.call(X.arr([N(1), N(0)]), X.dot(N(1), "nope"))]
 
 
 def transformers():
